@@ -847,6 +847,11 @@ fn c07_calls(case: &ByteCase, rep: &mut Report) {
             });
             rep.count("parses through a failing reader");
             match res {
+                Err(p) if p.contains(crate::fault::RETRY_MARKER) => rep.violation(
+                    "hang:unbounded-retry-of-a-failed-reader",
+                    format!("into_struct asked a reader that fails for good ({:?} at byte {}) {} times without returning", kind, at, crate::fault::RETRY_LIMIT),
+                    case.to_json(),
+                ),
                 Err(p) => rep.violation(
                     "panic:parse-with-reader-fault",
                     format!("into_struct panicked with {:?} (persistent={}) injected at byte {} chunk {}: {}", kind, persistent, at, chunk, p),
